@@ -181,7 +181,7 @@ PROPS = {
         "level_note": "Trusted: the printer's precedence table (DESIGN.md appendix B, taken from syntax/arrai.wbnf), the generator's own evaluation of closed boolean conditions, rapid. "
                       "Grammar quirks that are not about meaning are kept out of the domain: a bare '.' directly before a word operator is always parenthesised; 'if/else' (deprecated) and "
                       "'cond x {...}' control values are not generated here (C09 covers cond patterns).",
-        "tests": [{"name": "TestC08", "quick": 1500, "thorough": 25000}],
+        "tests": [{"name": "TestC08", "quick": 1500, "thorough": 15000}],
         "rule": "non-trivial: the program has at least two operators, the two renderings differ as text and both evaluate to a value. Distinct = distinct pair of texts.",
         "assumptions": COMMON_ASSUMPTIONS + [
             "orderby keys are injective functions of the element (ties are exempt by the property)",
@@ -213,7 +213,7 @@ PROPS = {
         "level_note": "Trusted: recover()+stack parsing in obs, the 20 s bound (three orders of magnitude above normal), rapid. wbnf parse errors are not rendered during the search (rendering "
                       "can take exponential time/memory inside the third-party library; recorded as finding hang@wbnf.ParseError.Error and exercised only by its witness). Native go test -fuzz is not used: "
                       "the first crasher stops it and the tree has dozens of known crashers.",
-        "tests": [{"name": "TestC10", "quick": 1500, "thorough": 30000}],
+        "tests": [{"name": "TestC10", "quick": 1500, "thorough": 20000}],
         "rule": "every generated case is non-trivial by construction (ill-typed operand, stdlib call, arbitrary operands or edited text). Distinct = distinct program text.",
         "assumptions": COMMON_ASSUMPTIONS + [
             "programs are non-recursive (no let rec, no //fn.fix): unbounded recursion overflows the Go stack by design of the interpreter",
